@@ -11,9 +11,11 @@ import (
 	"time"
 
 	"github.com/sdcio/data-server/pkg/datastore"
+	"github.com/sdcio/data-server/pkg/datastore/target"
 	"github.com/sdcio/data-server/pkg/datastore/types"
 	"github.com/sdcio/data-server/pkg/verifhook"
 
+	"verifharness/dev"
 	"verifharness/env"
 )
 
@@ -27,6 +29,10 @@ type TxnBehaviour struct {
 	Schedule  [][]string `json:"schedule"` // [process, yield point it leaves]
 	// Free: do not gate, let the Go scheduler decide (used for stress / race-detector runs)
 	Free bool `json:"free,omitempty"`
+	// Press: follow the schedule until the first device call after T1 (a rollback or T2's apply); inside that call -
+	// i.e. inside a critical section of the life cycle - every parked goroutine is let go and given time to run.
+	// Properly locked sections make them wait; the outcome clauses hold for every interleaving.
+	Press bool `json:"press,omitempty"`
 }
 
 type TxnEvent struct {
@@ -68,7 +74,27 @@ type txnSched struct {
 	timerDone bool
 	relocks   int
 	// giveUp is called when set2 arrives at set.relock for the MaxRetry-th time: the model's Set gives up then
-	giveUp func()
+	giveUp  func()
+	pressed bool
+}
+
+// press: called inside a device call; lets every parked goroutine go (once) and gives them time
+func (s *txnSched) press() {
+	s.mu.Lock()
+	if !s.enabled || s.pressed {
+		s.mu.Unlock()
+		return
+	}
+	s.pressed = true
+	s.mu.Unlock()
+	s.releaseAll()
+	time.Sleep(60 * time.Millisecond)
+}
+
+func (s *txnSched) isPressed() bool {
+	s.mu.Lock()
+	defer s.mu.Unlock()
+	return s.pressed
 }
 
 func procOf(point, id string) string {
@@ -242,6 +268,9 @@ func (r *TxnRunner) Run(b *TxnBehaviour) error {
 		return fmt.Errorf("setup T1: %w", err)
 	}
 	devBase := ds.Dev.NumCalls()
+	if b.Press {
+		ds.Dev.OnSet = func(context.Context, target.TargetSource, *dev.SetCall) { sch.press() }
+	}
 	sch.mu.Lock()
 	sch.enabled = true
 	sch.mu.Unlock()
@@ -339,6 +368,9 @@ func (r *TxnRunner) Run(b *TxnBehaviour) error {
 		}
 		// follow the schedule
 		for i, st := range b.Schedule {
+			if sch.isPressed() {
+				break // everybody runs freely from here on
+			}
 			p, from := st[0], st[1]
 			if p == "timer" && from == "timer.armed" {
 				// the model step "the timer fires": wait until the goroutine is parked after firing;
